@@ -133,6 +133,11 @@ def answer (toks : List String) : String :=
   | ["esf64", ts1, bx, ts2, by_, tm, lag] =>
       let r := esF64 (esSeries (rats ts1) (bools bx) (rats ts2) (bools by_) (optRat tm) (ratD lag))
       join [showOptRat r.1, showOptRat r.2]
+  -- round 5: the same with every operation on times (`ey + lag`, `ex - ey`, `np.diff`) rounded to
+  -- double: what the code computes on arbitrary (non-lattice) time stamps, bit for bit
+  | ["esfl", ts1, bx, ts2, by_, tm, lag] =>
+      let r := esF64 (esFl (rats ts1) (bools bx) (rats ts2) (bools by_) (optRat tm) (ratD lag))
+      join [showOptRat r.1, showOptRat r.2]
   | ["esmatf64", ts, e, n, tm, lag, s] =>
       match symm? s with
       | none => "bad-request"
